@@ -17,6 +17,7 @@ package hessian
 //@   assigns d.refList, @selfregs
 //@   sets @selfregs = old(@selfregs) + 1
 //@   ensures [C04:dec-register] len(d.refList) == len(old(d.refList)) + 1
+//@   ensures [C04,C05,C11:dec-register-value] R.kind(v) != K.Slice && R.kind(v) != K.Array ==> d.refList[len(d.refList) - 1] == v
 
 //@ func (*Decoder).readRef
 //@   assigns @pos, @E, @lastreader, @calls
@@ -36,11 +37,13 @@ package hessian
 //@   proves  [C03:type-ref-resolves] err == nil && !G.isStr(tag) ==> len(d.typList) == len(old(d.typList)) && index == int(G.decIntT(tag, @in, old(@pos) + 1)) && result0 == old(d.typList)[index]
 
 //@ func (*Decoder).readClassDef
-//@   assigns @pos, @E, @declared, @lastreader
+//@   assigns @pos, @E, @declared, @lastreader, d.typList
 //@   loop 1 invariant [C14,C05:clsdef-index] 0 <= i && i <= int(count) && len(fields) == i
 //@   loop 1 invariant [C14:clsdef-consumed] i <= @pos - old(@pos)
+//@   loop 1 invariant [C03,C05:clsdef-no-type-name] len(d.typList) == len(old(d.typList))
 //@   loop 1 decreases int(count) - i
 //@   ensures [C05:classdef-total] true
+//@   ensures [C03,C05:classdef-registers-no-type-name] len(d.typList) == len(old(d.typList))
 
 //@ func findField
 //@   assigns @E
